@@ -38,7 +38,14 @@ RULE = ("gatesets: 2-4 qubit programs (Haar-random 1/2/3-qubit MatrixGates, cata
         "operation has >= 2 qubits")
 ASSUMPTIONS = [
     "cirq.unitary(op) of every single output operation is correct (policed by C03/C04); products are formed with numpy",
-    "equivalence tolerance 1e-6 up to global phase (1e-5 for the IonQ native gatesets, 1e-5 for the 3-qubit matrix synthesis path)",
+    "equivalence tolerance 1e-6 up to global phase; 1e-5 for the IonQ native gatesets, for circuits that go through the 3-qubit "
+    "matrix synthesis, for the sqrt-iSWAP targets (their synthesis loses a square root near the iSWAP vertex: 170 x atol was "
+    "measured by C15 on the unchanged tree) and max(1e-6, 100 x atol) when a larger atol is passed to the CZ target",
+    "gate parameters within 1e-6 of (but not on) the special values 0 and 1 are snapped onto them: inputs inside the tolerance "
+    "windows of the analytical synthesis routines are C15's subject (one such input - KAK vector (pi/8, 1e-9, 0) through "
+    "two_qubit_matrix_to_sqrt_iswap_operations - is O(1) wrong and is reported there)",
+    "strict mode (ignore_failures=False) on AQT / Pasqal: a ValueError naming a global phase produced by cirq.decompose of a "
+    ">= 3-qubit or shifted input operation is counted as the documented refusal (these gatesets list no GlobalPhaseGate)",
     "operations tagged with a tag listed in TransformerContext.tags_to_ignore are the no-compile operations of the property",
     "the membership tables in this file transcribe the gateset docstrings (gate type + parameter predicate)",
     "routing inputs contain only 1- and 2-qubit operations and the hard-coded initial maps place the logical qubits on a "
@@ -181,9 +188,6 @@ def _kak_step(rng, n):
     kind = _KAK_KINDS[int(rng.integers(len(_KAK_KINDS)))]
     u, info = UW.gen_two_qubit(rng, kind + 10 * int(rng.integers(0, 40)))
     return _U("Matrix2x2", (np.asarray(u, dtype=complex),), _wires(rng, n, 2)), info["label"]
-
-
-_CAT_EXCLUDE = {"GlobalPhase"}
 
 
 def _cat_pred(cfg):
@@ -351,7 +355,8 @@ def _configs():
         add = extra[1]() if extra else ()
         G = cirq.CZTargetGateset(atol=atol, allow_partial_czs=partial, additional_gates=add, **opts)
         lab = "CZ(partial=%s,atol=%g%s)" % (partial, atol, "".join(",%s=%s" % kv for kv in sorted(opts.items())))
-        cfg = base(lab, G, T["czpow" if partial else "cz"], bound=3, native2=[("CZPow", None if partial else (1.0, 0.0))])
+        cfg = base(lab, G, T["czpow" if partial else "cz"], bound=3, native2=[("CZPow", None if partial else (1.0, 0.0))],
+                   tol=max(TOL, 100 * atol))
         return with_extra(cfg, extra)
 
     def sqi(rng, inv=False, required=None, extra=None, atol=1e-8):
@@ -359,7 +364,7 @@ def _configs():
         G = cirq.SqrtIswapTargetGateset(atol=atol, required_sqrt_iswap_count=required, use_sqrt_iswap_inv=inv,
                                         additional_gates=add)
         cfg = base("SqrtIswap(inv=%s,required=%s,atol=%g)" % (inv, required, atol), G,
-                   T["sqrt_iswap_inv" if inv else "sqrt_iswap"], bound=3, required=required,
+                   T["sqrt_iswap_inv" if inv else "sqrt_iswap"], bound=3, required=required, tol=1e-5,
                    native2=[("ISwapPow", (-0.5 if inv else 0.5, 0.0))])
         return with_extra(cfg, extra)
 
@@ -527,15 +532,34 @@ def _gen_input(rng, cfg, kind):
     return n, items, label
 
 
+class _TimeLimit(BaseException):
+    pass
+
+
+class _time_limit:
+    """Wall-clock guard around one compilation (a case is ~40 ms; the shard watchdog stays the last resort)."""
+
+    def __init__(self, seconds):
+        self.seconds = seconds
+
+    def _fire(self, signum, frame):
+        raise _TimeLimit()
+
+    def __enter__(self):
+        import signal
+
+        self.old = signal.signal(signal.SIGALRM, self._fire)
+        signal.setitimer(signal.ITIMER_REAL, self.seconds)
+
+    def __exit__(self, *exc):
+        import signal
+
+        signal.setitimer(signal.ITIMER_REAL, 0)
+        signal.signal(signal.SIGALRM, self.old)
+        return False
+
+
 _KINDS = ["haar", "single-2q", "kak", "catalogue", "two-qubit-circuit", "native", "native", "mixed", "mixed"]
-
-_EXPECTED_REJECTIONS = (
-    # (exception type, message fragment, rejection label)
-    (ValueError, "Unable to convert", "compile:unable-to-convert"),
-    (ValueError, "sqrt-iSWAP", "compile:required-sqrt-iswap-count-too-low"),
-    (ValueError, "sqrt_iswap", "compile:required-sqrt-iswap-count-too-low"),
-)
-
 
 def _is_native(op, cfg, opinion):
     """opinion 'G': the gateset's own answer; 'T': the harness table (CircuitOperations unrolled where documented)."""
@@ -624,7 +648,12 @@ def sec_gatesets(ctx, rng, case):
                ignore_failures=not strict, max_num_passes=passes)
     mk = cfg["cls"]
     try:
-        out = cirq.optimize_for_target_gateset(circuit, gateset=G, ignore_failures=not strict, **kw)
+        with _time_limit(40):
+            out = cirq.optimize_for_target_gateset(circuit, gateset=G, ignore_failures=not strict, **kw)
+    except _TimeLimit:
+        ctx.event("compile-exceeded-40s")
+        ctx.inconclusive("gatesets:compile-exceeded-40s:%s:max_num_passes=%s" % (mk, passes))
+        return
     except Exception as e:  # noqa: BLE001 - every exception is classified below; unknown ones are reported with their input
         out = _classify_compile_exception(ctx, e, cfg, circuit, items, strict, kw, wit)
         if out is None:
@@ -1548,6 +1577,6 @@ def sec_devices(ctx, rng, case):
 
 SECTIONS = [
     ("gatesets", sec_gatesets, 14000, 110000, 3.0),
-    ("routing", sec_routing, 8000, 60000, 1.2),
-    ("devices", sec_devices, 2400, 16000, 0.5),
+    ("routing", sec_routing, 8000, 120000, 1.2),
+    ("devices", sec_devices, 2400, 24000, 0.5),
 ]
